@@ -83,7 +83,9 @@ def annotate_citations(
         # if we're applying to source_text, update offsets
         if offset_updater:
             start = offset_updater.update(start, bisect_right)
-            end = offset_updater.update(end, bisect_left)
+            # an empty span at an insertion point would otherwise end
+            # before it starts
+            end = max(start, offset_updater.update(end, bisect_left))
 
         # handle overlaps
         if start < last_end:
@@ -111,6 +113,10 @@ def annotate_citations(
                         "Citation was not annotated due to unbalanced tags %s",
                         original_span_text,
                     )
+                    continue
+                if start < last_end:
+                    # the balanced span reaches back into text that was
+                    # already emitted; skip rather than duplicate it
                     continue
 
         if annotator is not None:
